@@ -125,6 +125,13 @@ class CallGraph:
                 out.append(m2)
         return out
 
+    def _handles_tokens(self, mod):
+        """modules that can hold token objects: sql.py itself or importers of sqlparse.sql / the package root API"""
+        if mod.name in ('sqlparse.sql', 'sqlparse'):
+            return True
+        return any(imp[0] == 'module' and imp[1] == 'sqlparse.sql' for imp in mod.imports.values()) or \
+            any(imp[0] == 'object' and imp[1] == 'sqlparse.sql' for imp in mod.imports.values())
+
     # receiver classification -------------------------------------------
     def _receiver_kind(self, recv, f, localdefs):
         """'list' | 'str' | 'regex' | 'stdlib' | None (unknown -> CHA)"""
@@ -210,7 +217,8 @@ class CallGraph:
                             for x in self._expand(t):
                                 E.add(x.qname)
             elif isinstance(n, ast.JoinedStr):
-                if any(isinstance(v, ast.FormattedValue) for v in n.values):
+                if self._handles_tokens(f.mod) and any(
+                        isinstance(v, ast.FormattedValue) and self._receiver_kind(v.value, f, ldefs) is None for v in n.values):
                     for m in self.methods_by_name.get('__str__', []):
                         E.add(m.qname)
             elif isinstance(n, (ast.For, ast.comprehension)):
@@ -235,7 +243,9 @@ class CallGraph:
             if name in ('getattr', 'setattr', 'exec', 'eval', 'globals', 'vars', '__import__', 'delattr'):
                 self.reflection.append((f, n))
             if name in ('str', 'print', 'repr'):
-                out += self.methods_by_name.get('__str__', []) + self.methods_by_name.get('__repr__', [])
+                if (name == 'str' or self._handles_tokens(f.mod)) and not (
+                        n.args and self._receiver_kind(n.args[0], f, ldefs) is not None and name != 'print'):
+                    out += self.methods_by_name.get('__str__', []) + self.methods_by_name.get('__repr__', [])
                 return out
             if name == 'map' and n.args and is_name(n.args[0], 'str'):
                 return list(self.methods_by_name.get('__str__', []))
